@@ -36,6 +36,7 @@ import (
 	mrand "math/rand"
 	"net"
 	"net/netip"
+	"reflect"
 	"sort"
 	"strings"
 	"testing"
@@ -107,6 +108,7 @@ type vdLine struct {
 	Draws      []vdDraw `json:"draws"`
 	Cport      vdPort   `json:"cport"`
 	Sport      vdPort   `json:"sport"`
+	Oport      vdPort   `json:"oport"` // the client's own derivation in the state its session is in (after a registrar override too)
 	Effrand    bool     `json:"effrand"`
 	Effpid     int      `json:"effpid"`
 	Salt       string   `json:"salt"`
@@ -761,6 +763,40 @@ func (d *vdDriver) clientView(w *vdWorld, sec *vdSecret, fam int, tu *vdLine, ct
 			return nil, false, fmt.Errorf("SetSessionParams: %w", err)
 		}
 	}
+	// the client's own derivation, in whatever state its session is in now (the parameters GetParams reports are the ones
+	// the station is told): 443 before v3 and on subnets that do not randomise, else the transport's GetDstPort
+	if tu.Lv < 3 || !rp {
+		v["ownport"] = "443"
+	} else {
+		p, err := ct.getDstPort(seed)
+		if err != nil {
+			return nil, false, fmt.Errorf("client GetDstPort (own): %w", err)
+		}
+		v["ownport"] = fmt.Sprint(p)
+	}
+	// ... and what the STATION derives from a message naming the parameters this session reports (GetParams, now)
+	{
+		tt := vdTransportType[tu.Tr]
+		tr := d.rm.registeredDecoys.transports[tt]
+		var a *anypb.Any
+		if tu.Pc != "absent" || tu.Ov == "params" {
+			if sp, err := ct.getParams(); err == nil && sp != nil && !reflect.ValueOf(sp).IsNil() {
+				a, _ = anypb.New(sp)
+			}
+		}
+		sport := "443"
+		if tu.Lv >= 3 && rp {
+			params, err := tr.ParseParams(uint(tu.Lv), a)
+			if err != nil {
+				sport = "error: " + err.Error()
+			} else if p, err := tr.GetDstPort(uint(tu.Lv), seed, params); err != nil {
+				sport = "error: " + err.Error()
+			} else {
+				sport = fmt.Sprint(p)
+			}
+		}
+		v["ownport.station"] = sport
+	}
 	// port: clients older than v3 always dial 443; newer ones ask the transport unless the subnet does not randomise;
 	// a port in the registration response wins (ConjureReg.UnpackRegResp)
 	switch {
@@ -941,6 +977,16 @@ func (d *vdDriver) specView(w *vdWorld, sec *vdSecret, fam int, tu *vdLine) (vdV
 		// 443 fallback, transport default, or a port carried by the registration response
 		v["port"] = fmt.Sprint(tu.Cport.Port)
 	}
+	switch tu.Oport.Kind {
+	case "const":
+		v["ownport"] = fmt.Sprint(tu.Oport.Port)
+	case "range":
+		p, err := vdPortRange(tu.Oport.Lo, tu.Oport.Hi, seed, "phantom-select-dst-port")
+		if err != nil {
+			return nil, err
+		}
+		v["ownport"] = fmt.Sprint(p)
+	}
 	if tu.Tr == "prefix" {
 		v["prefixid"] = fmt.Sprint(tu.Effpid)
 	}
@@ -1054,6 +1100,14 @@ func (d *vdDriver) eval(w *vdWorld, sec *vdSecret, fam int, tu0 *vdLine) {
 		d.report("mismatch", "supportsRandom", w, sec, fam, tu, views, fmt.Sprintf("station %t spec %s", rpS, r))
 	}
 	delete(pv, "rp")
+	if x, ok := cv["ownport.station"]; ok {
+		// its own pseudo-view, compared under the field name "ownport"
+		if !(tu.Ov == "params" && cv["ownport"] == "0" && pv["ownport"] == "0") {
+			// (0: the override installed a prefix without a port of its own - the client dials the response's port)
+			views["station-own"] = vdView{"ownport": x}
+		}
+		delete(cv, "ownport.station")
+	}
 	fields := map[string]bool{}
 	for _, v := range views {
 		for f := range v {
@@ -1065,7 +1119,7 @@ func (d *vdDriver) eval(w *vdWorld, sec *vdSecret, fam int, tu0 *vdLine) {
 		var ref string
 		var have bool
 		bad := false
-		for _, n := range []string{"station", "station-msg", "client", "spec"} {
+		for _, n := range []string{"station", "station-msg", "station-own", "client", "spec"} {
 			x, ok := views[n][f]
 			if !ok {
 				continue
